@@ -20,6 +20,17 @@ def handle : Handler := fun op args =>
       | .ok d => "ok " ++ showRat d ++ " " ++ showRat (permAbsN a.rows a)
       | .error .diag => "err"
       | .error .undef => "undef"
+  -- Determinant(), Invertible() and the outcome of Inverse() on the same matrix
+  | "c05.gate" => withArgs pMat args fun a =>
+      match det a with
+      | .ok d =>
+        "ok " ++ showRat d ++ " " ++ (if invertible a then "1" else "0") ++ " | " ++
+          (match inverse a with
+           | .ok x => "ok " ++ showMat x
+           | .error .diag => "err"
+           | .error .undef => "undef")
+      | .error .diag => "err"
+      | .error .undef => "undef"
   | "c05.invertible" => withArgs pMat args fun a => "ok " ++ (if invertible a then "1" else "0")
   -- inverse, then ‖M‖∞ and ‖M⁻¹‖∞ (exact) for the κ-scaled tolerance
   | "c05.inverse" => withArgs pMat args fun a =>
